@@ -20,6 +20,29 @@ STRENGTHENED = {
     "C16-m2": "rfunc variant whose labels are shared by several vertices",
     "C17-m2": "instances of some singleton classes are falsy objects",
     "C19-m2": "C19 histories: the caller edits the edge_whitelist dicts it passed in",
+    # wave 2
+    "C02-w2m1": "vertices with equal uids; `universes=` given as generator / list / tuple in turn",
+    "C02-w2m2": "one list object shared as `universes=` argument of several vertices (keep-mode)",
+    "C04-w2m2": "queries in two phases around further mutations (warm memos)",
+    "C05-w2m1": "short-lived filter objects (a new callable per call, address reused) in the cache audit",
+    "C05-w2m2": "fresh-interpreter round trip: load, mutate, query again",
+    "C06-w2m2": "oracle for raising traversals (which call must raise, and that nothing is yielded after it)",
+    "C08-w2m2": "every search is repeated, for all three sought values, before AND after a vertex-side removal from the universe",
+    "C09-w2m2": "link class deriving from BOTH edge classes (`DU`) in the model (`LCls.DU`), the regenerated tables (now 1152 / 576 rows) and the worlds",
+    "C10-w2m1": "loaded copies are USED (mutated, traversed, re-pickled), not only compared",
+    "C10-w2m2": "loaded copies are USED (mutated, traversed, re-pickled), not only compared",
+    "C12-w2m1": "read-only proxy views of the edge_whitelist are exchanged and edited too",
+    "C13-w2m1": "denser worlds; memo contents judged by an oracle of their own",
+    "C14-w2m1": "an attribute used by the title format is reassigned between two renders of the same vertices",
+    "C14-w2m2": "vertex classes with two bases (`MX`, `MV(SV, MX)`), option tables 5 and 6, model lookup along the MRO (`C14_resolve_mro`)",
+    "C16-w2m1": "a long-lived rfunc object that READS the vertex (attribute a0), reassigned between renders",
+    "C17-w2m1": "constructors that raise (argument tuple 9; model op `constructFail`, theorem `C17_failed_construction_registers_nothing`)",
+    "C18-w2m1": "the harness no longer keeps the true singletons alive (instances are named by a number given in `__init__`)",
+    "C18-w2m2": "a constructor that issues a global clear (argument tuple 10; model op `constructClearing`, theorem `C18_reentrant_clear_keeps_new_instance`)",
+}
+OUT_OF_SCOPE = {
+    "C03-w2m1": "needs vertices that override `__eq__`/`__hash__`; the unchanged code itself uses `in` / `remove` (==) on its vertex lists throughout, "
+                "so the statement's identity reading only makes sense for default equality — a stated assumption of the model (DESIGN §6)",
 }
 
 
@@ -40,8 +63,8 @@ def main():
         first = next((r["detail"] for r in res.values() if r["exit"] == 1), "")
         rows.append("| %s | %s | %s | %s | %s | %s |" % (
             sid, ", ".join(f.replace("edgegraph/", "") for f in files_of(os.path.join(d, "patch.diff"))),
-            "yes" if m.get("confirmed") else "NO", ", ".join(caught) or "**missed**",
-            first[:110].replace("|", "/"), STRENGTHENED.get(sid, "")))
+            "yes" if m.get("confirmed") else "NO", ", ".join(caught) or ("outside the stated scope" if sid in OUT_OF_SCOPE else "**missed**"),
+            first[:110].replace("|", "/"), STRENGTHENED.get(sid, OUT_OF_SCOPE.get(sid, ""))))
     print("| id | files changed | confirmed (suite passes, demo fails/passes) | caught by quick check | first report | strengthening it prompted |")
     print("|---|---|---|---|---|---|")
     print("\n".join(rows))
